@@ -134,7 +134,17 @@ func (s *IndexStorage) Index() (i *index.Index, err error) {
 // mutating them in place.
 func copyIndex(idx *index.Index) *index.Index {
 	cp := *idx
+	// The entries themselves are copied, not only the slice: callers update
+	// entries in place (Worktree.Add, Index.SkipUnless) before they write the
+	// index back, and an operation that fails in between must not leave its
+	// edits in the cached index while the file on disk is unchanged.
 	cp.Entries = make([]*index.Entry, len(idx.Entries))
-	copy(cp.Entries, idx.Entries)
+	for i, e := range idx.Entries {
+		if e == nil {
+			continue
+		}
+		ec := *e
+		cp.Entries[i] = &ec
+	}
 	return &cp
 }
